@@ -334,6 +334,14 @@ theorem consecutive_walk (g : Geom) (a : Nat) :
     simp [this]
   · intro h h2; rw [e1, e2]; simp only [h, if_true]; rw [e3, e4]; simp [h2]
 
+/-- **One port word is one DRAM burst**: with the `address_align` the controller derives from the memory type and the
+number of phases, consecutive port addresses are exactly one burst of columns apart (2^align = burst length, SDR: the
+number of phases), for every memory type and every phase count the PHYs use - so bursts neither overlap nor leave gaps. -/
+theorem align_is_burst (memtype nphases : Nat) (hp : nphases = 1 ∨ nphases = 2 ∨ nphases = 4 ∨ nphases = 8) :
+    2 ^ alignOf memtype nphases = burstLengthCode memtype nphases := by
+  unfold alignOf burstLengthCode
+  rcases hp with h | h | h | h <;> subst h <;> (split <;> decide)
+
 /-- Every module of the library (table regenerated from `litedram/modules.py` on every run) has
 power-of-two dimensions and meets the `wide_col` clause of `WF`: a device with more than 1024
 columns has more rows than columns, so `cmd.a` has the extra address line the A10 skip needs. -/
